@@ -539,7 +539,15 @@ def call_api(r, index=0):
     templates take a different branch there (method.input.ident.package != method.ident.package)."""
     common = File("google/example/library/v1/common/requests.proto", PKG + ".common", deps=list(apigen.STD_DEPS) + ["google/api/field_info.proto"])
     book = common.message("Book").field("name", 1, "string").field("title", 2, "string")
-    main = File("google/example/library/v1/library.proto", PKG, deps=list(apigen.STD_DEPS) + ["google/api/field_info.proto", common.proto.name])
+    extra = []
+    out_type = book.fqn
+    if index % 2 == 0:
+        # one of the API's proto files is called uuid.proto and its message is the service's output: the types module `uuid` must not
+        # shadow the standard module the population statements call (uuid.uuid4())
+        uf = File("google/example/library/v1/uuid.proto", PKG, deps=list(apigen.STD_DEPS))
+        out_type = uf.message("Receipt").field("name", 1, "string").field("serial", 2, "int64").fqn
+        extra = [uf]
+    main = File("google/example/library/v1/library.proto", PKG, deps=list(apigen.STD_DEPS) + ["google/api/field_info.proto", common.proto.name] + [f.proto.name for f in extra])
     svc = main.service("Library", host="library.example.com", scopes="https://www.googleapis.com/auth/cloud-platform")
     from google.api import field_info_pb2
     methods, settings = [], []
@@ -564,7 +572,7 @@ def call_api(r, index=0):
             m.field(n, i, t, **kw)
         if sig:         # flattened keyword arguments include the id fields: the caller may pass "" / a UUID / nothing as a keyword
             sig = list(sig) + [n for n, _ in ids]
-        svc.rpc(rpc, m.fqn, book.fqn, http=http, body=body, sigs=[",".join(sig)] if sig else [])
+        svc.rpc(rpc, m.fqn, out_type, http=http, body=body, sigs=[",".join(sig)] if sig else [])
         candidates = [n for n, kw in ids if kw.get("uuid4")]
         auto = r.sample(candidates, r.randint(1, len(candidates)))
         if not methods:          # the first method of every library lists a proto3-optional and a plain field
@@ -597,7 +605,9 @@ def call_api(r, index=0):
         for m in omitted:
             m["client_name"] = "_" + m["snake"]
             m["internal"] = True
-    return [common, main], methods, settings, selective
+    for m in methods:
+        m["uuid_proto"] = bool(extra)
+    return [common] + extra + [main], methods, settings, selective
 
 
 def snake(s):
@@ -688,6 +698,7 @@ def eval_call(ctx, D, i, b64, settings, c, res, checks, pending, generated):
              feature=[f"call-{kind}", f"mode-{c['mode']}", "auto-listed" if m["auto"] else "method-without-settings",
                       f"request-message-in-{m.get('where', 'same')}-package-{kind}" if m["auto"] else "request-unlisted",
                       f"internal-method-with-settings-{kind}" if m.get("internal") and m["auto"] else "public-method",
+                      "api-with-uuid.proto" if m.get("uuid_proto") else "api-without-uuid.proto",
                       "http-body-" + str(m["body"])])
     label = f"lib#{i} {m.get('client_name', m['rpc'])} (request message in {'sub-package common' if m.get('where') == 'common' else 'the service package'}) {kind} {c['mode']} auto={m['auto']} state={json.dumps(st)}"
     if not res.get("ok"):
